@@ -684,11 +684,17 @@ def payload_classes(rng, own_prefix: bytes):
         "ipv8-other-long": other2 + b"\xee" + rb(rng.choice([30, 277, 1200])),
         "ipv8-v1": other1 + b"\xee" + rb(10),
         "ipv8-own": own_prefix + b"\xee" + rb(rng.choice([0, 30, 400])),
+        "ipv8-own-msg17": own_prefix + b"\x11" + rb(rng.choice([3, 30])),     # peers-request id: registered from_exit in hidden services
+        "ipv8-own-msg1": own_prefix + b"\x01" + rb(30),
         "ipv8-short22": other2,
         "utp": b"\x01\x00" + rb(30),
         "tracker": struct.pack("!I", rng.randrange(4)) + rb(12),
         "dht": b"d" + rb(rng.choice([1, 50])) + b"e",
     }
+
+
+def exit_ids(ov) -> str:
+    return "[" + ",".join(str(i) for i in sorted(getattr(ov, "exit_msg_ids", ()))) + "]"
 
 
 CT = {"DATA": "data", "IP_SEEDER": "ip", "RP_SEEDER": "rps", "RP_DOWNLOADER": "rpd"}
@@ -731,14 +737,17 @@ async def class_round(ctx: Ctx, rng, ck: Checker, sim: Sim, kind: str, send, rec
         else:
             good_re = reinj == [(recv_node, recv_circ.circuit_id, tuple(origin), payload)]
             seen = "raw" if raws else "ownPacket" if good_re else "dropped" if not reinj else "other"
-            if payload[:22] == pfx and not good_re:
-                ctx.oracle_fail("on_data:own-packet", f"{tag}: {kind}, tunnel-community packet returned through a {ct} circuit was not "
-                                "re-injected once, unmodified, with its origin and circuit", replay)
+            if payload[:22] == pfx and reinj and not good_re:
+                ctx.oracle_fail("on_data:own-packet", f"{tag}: {kind}, tunnel-community packet returned through a {ct} circuit was "
+                                "re-injected altered, more than once or with another origin / circuit", replay)
+            if payload[:22] == pfx and reinj and payload[22] not in getattr(ov, "exit_msg_ids", ()):
+                ctx.oracle_fail("on_data:nested-redispatch", f"{tag}: {kind}, a cell message (id {payload[22]}) nested in returned data was "
+                                "dispatched with the sender-chosen origin although it is not registered to arrive through an exit", replay)
         if sim.exit_log[n_exit:]:
             ctx.oracle_fail("on_data:exited", f"{tag}: {kind}, {cname}: data for the circuit owner left through an exit socket", replay)
         ctx.count(f"class:{kind}:{cname}:{seen}")
         if ck.drv is not None:
-            m = ck.ask(f"sink {ct} {pfx.hex()} {int(tep)} 1 {payload.hex() or '-'}")
+            m = ck.ask(f"sink {ct} {pfx.hex()} {int(tep)} 1 {payload.hex() or '-'} {exit_ids(ov)}")
             if m != seen:
                 ctx.disagree(f"{tag}: {kind}, {cname} payload on a {ct} circuit: model sink {m} != implementation {seen}",
                              {**replay, "model": m, "impl": seen})
@@ -790,7 +799,7 @@ async def nested_round(ctx: Ctx, rng, ck: Checker, sim: Sim, kind: str, xs, recv
                                 f"{src} ({sname}; first hop is {hop}), was handed to on_raw_data as data of circuit {raws[0][1]} from {raws[0][2]}", replay)
             ctx.count(f"nested:{sname}:{mname}:{'raw' if raws else 'none'}")
             if ck.drv is not None:
-                m = ck.ask(f"sink {CT[recv_circ.ctype]} {pfx.hex()} {int(isinstance(ov.endpoint, TunnelEndpoint))} 1 {packet.hex()}")
+                m = ck.ask(f"sink {CT[recv_circ.ctype]} {pfx.hex()} {int(isinstance(ov.endpoint, TunnelEndpoint))} 1 {packet.hex()} {exit_ids(ov)}")
                 reinj = [o for o in sim.opfc_log[n_op:] if o[0] == recv_node and o[3] == packet]
                 seen = "raw" if raws else "ownPacket" if reinj else "dropped"
                 if m != seen:
@@ -833,8 +842,8 @@ async def class_round_exit(ctx: Ctx, rng, ck: Checker, sim: Sim, kind: str, send
     if seen != "dropped":
         ctx.oracle_fail("exit_data:zero-destination", f"{tag}: data for 0.0.0.0:0 left the exit", replay)
     if ck.drv is not None:
-        m = ck.ask(f"sink - {pfx.hex()} 0 1 {payload.hex()}")
-        m2 = ck.ask(f"sink - {pfx.hex()} 0 0 {payload.hex()}")
+        m = ck.ask(f"sink - {pfx.hex()} 0 1 {payload.hex()} []")
+        m2 = ck.ask(f"sink - {pfx.hex()} 0 0 {payload.hex()} []")
         if m != seen or m2 != "exitSocket":
             ctx.disagree(f"{tag}: {kind}: exit branch of on_data: model {m}/{m2} != implementation {seen}/exitSocket", {**replay, "model": m})
     ctx.count(f"class:{kind}:zero-destination:{seen}")
@@ -1965,7 +1974,7 @@ async def run_tunnel_endpoint(ctx: Ctx, rng, hops: int, use_model: bool, seed_ta
                 if ck.drv is not None:
                     m = ck.ask(f"tdeliver {payload.hex()} {specs}")
                     real = "[" + ",".join(str(names.index(g[0])) for g in new) + "]"
-                    s1 = ck.ask(f"sink data {ov.get_prefix().hex()} 1 1 {payload.hex()}")
+                    s1 = ck.ask(f"sink data {ov.get_prefix().hex()} 1 1 {payload.hex()} {exit_ids(ov)}")
                     if m != real or s1 != "otherCommunity":
                         ctx.disagree(f"{tag}: return of a {pname} packet: model sink {s1}, delivery set {m} != implementation {real}",
                                      {**replay, "model": m, "impl": real})
